@@ -64,6 +64,8 @@ def placement_variant(plan, rng):
     for fi, mi, m in q.blocks():
         nk = len(q.families[fi].keys)
         m.inline = {ki: rng.random() < 0.5 for ki in range(nk)}
+        if getattr(m, "redundant", None):
+            m.redundant = {ki: (rng.random() < 0.5, rng.random() < 0.5) for ki in m.redundant}
         if m.unsized:
             m.unsized_where = rng.random() < 0.5
     return q
